@@ -91,7 +91,8 @@ class C18(Check):
 
     # ------------------------------------------------------------------
     def gen(self, rng, tier, idx):
-        kind = rng.choice(["file", "file", "file", "sharded", "sharded"])
+        kind = rng.choice(["file", "file", "file", "sharded", "sharded",
+                           "http", "sharded_http"])
         enc = rng.choice(["raw", "raw", "compressed_segmentation"])
         dtype = (rng.choice(["uint32", "uint64"])
                  if enc == "compressed_segmentation"
@@ -116,10 +117,21 @@ class C18(Check):
                              "write_new", "store_file_new",
                              "store_file_overwrite", "read_chunk",
                              "fetch_file", "file_exists", "file_exists_absent",
-                             "read_absent"])
-        else:
+                             "read_absent", "store_chunk_noow_existing",
+                             "store_file_noow_existing"])
+        elif kind == "sharded":
             op = rng.choice(["session", "session", "session", "read_chunk",
                              "read_all"])
+        else:
+            op = rng.choice(["http_fetch_chunk", "http_fetch_chunk",
+                             "http_fetch_absent", "http_fetch_info",
+                             "http_exists", "http_exists_absent"])
+            sc["legacy"] = rng.random() < 0.3
+            sc["zero_range"] = rng.choice(["200", "416", "206"])
+            sc["url"] = rng.choice(["http://sim.test/ds", "http://sim.test/ds/",
+                                    "precomputed://https://sim.test/ds"])
+            if kind == "http":
+                sc["flat"] = rng.random() < 0.6    # deep => nginx rules
         opd = {"name": op, "ci": rng.randrange(64),
                "order_seed": rng.randrange(1 << 30),
                "via_url": rng.random() < 0.5}
@@ -221,6 +233,25 @@ class C18(Check):
                 acc.store_file(fname, buf, overwrite=ow)
             return dict(label=name, run=run, target=("file", fname), new=buf,
                         is_store=True)
+        if name == "store_chunk_noow_existing":
+            # a store that fails *naturally* (EEXIST): no permission to
+            # overwrite an existing chunk
+            co = grid0[opd["ci"] % len(grid0)]
+            buf = payload(sc["salt"] + 5, 300)
+
+            def run():
+                acc = get_accessor_for_url(DS, dict(opts))
+                acc.store_chunk(buf, "s0", co, overwrite=False)
+            return dict(label=name, run=run, target=("chunk", ("s0", co)),
+                        new=None, is_store=True, must_fail=True)
+        if name == "store_file_noow_existing":
+            buf = payload(sc["salt"] + 6, 900)
+
+            def run():
+                acc = get_accessor_for_url(DS, dict(opts))
+                acc.store_file("aux.bin", buf, overwrite=False)
+            return dict(label=name, run=run, target=("file", "aux.bin"),
+                        new=buf, is_store=True, must_fail=True)
         if name in ("read_chunk", "read_absent"):
             if name == "read_chunk":
                 key, co = "s0", grid0[opd["ci"] % len(grid0)]
@@ -285,6 +316,8 @@ class C18(Check):
         from sim.simfs import PLAUSIBLE, SimCrash, mounted
         from neuroglancer_scripts.accessor import DataAccessError
         sc, opd = trace["scenario"], trace["op"]
+        if sc["kind"] in ("http", "sharded_http"):
+            return self._execute_http(trace)
         res = Result()
         log = EventLog()
         info = self._info(sc)
@@ -307,7 +340,39 @@ class C18(Check):
             fs.end_window()
         steps += fs.total_calls
         expect_absent = op["label"] == "read_absent"
-        if expect_absent:
+        if op.get("must_fail"):
+            from neuroglancer_scripts.accessor import (
+                get_accessor_for_url as _gafu)
+            if st == "ok":
+                res.violate("C18/refusal-missing",
+                            f"{sc['kind']}/{op['label']} returned normally "
+                            "although the name exists and overwrite=False")
+                return self._fin(res, log, steps, 1, sigs)
+            if not isinstance(v, (DataAccessError, OSError)):
+                res.violate("C18/unrelated-exception",
+                            f"{sc['kind']}/{op['label']}: refused with "
+                            f"{excname(v)} instead of a data-access / I/O "
+                            "error",
+                            key=f"C18/exc/{sc['kind']}/{op['label']}/"
+                            f"{excname(v)}")
+            with mounted(fs):
+                fs.restart()
+                after = dsutil.read_dataset(DS, info, which=sorted(model))
+                a2 = _gafu(DS, _acc_opts(sc))
+                s3, got3 = sut(a2.fetch_file, "aux.bin")
+            bad = [k for k in sorted(model) if not (
+                after[k][0] == "ok" and np.array_equal(after[k][1],
+                                                       model[k]))]
+            if bad or not (s3 == "ok" and got3 == files["aux.bin"]):
+                res.violate(
+                    "C18/collateral",
+                    f"{sc['kind']}/{op['label']}: the refused store "
+                    f"(no fault injected) damaged earlier data: chunks "
+                    f"{bad[:3]} aux.bin {'ok' if s3 == 'ok' and got3 == files['aux.bin'] else 'changed'}",
+                    key=f"C18/collateral/{sc['kind']}/{op['label']}/natural")
+                return self._fin(res, log, steps, 1, sigs)
+            sigs.add(f"{sc['kind']}|{op['label']}|natural-EEXIST")
+        elif expect_absent:
             if st == "ok":
                 res.violate("C18/absent-returns-data",
                             f"{sc['kind']}/read_absent returned data for a "
@@ -462,7 +527,17 @@ class C18(Check):
                         narrow=narrow)
                     break
                 # the operation's own target
-                if op["is_store"] and tgt[0] == "chunk":
+                if op.get("must_fail") and tgt[0] == "chunk" and not crashed:
+                    got = after[tgt[1]]
+                    old = model.get(tgt[1])
+                    if not (got[0] == "ok" and np.array_equal(got[1], old)):
+                        res.violate(
+                            "C18/collateral",
+                            f"{where}: the store was not allowed to "
+                            f"overwrite, yet {tgt[1]} now reads as {got[0]}",
+                            key=f"C18/collateral/{sc['kind']}/{op['label']}"
+                            "/target", narrow=narrow)
+                elif op["is_store"] and tgt[0] == "chunk":
                     got = after[tgt[1]]
                     old = model.get(tgt[1])
                     self._judge_target(res, where, sc, op, st, crashed, got,
@@ -512,6 +587,161 @@ class C18(Check):
         return self._fin(res, log, steps, evals + 1, sigs)
 
     # ------------------------------------------------------------------
+    def _execute_http(self, trace):
+        """HTTP accessors: every request of the operation is failed once with
+        every transport/server fault kind."""
+        import numpy as np
+        from sim import dsutil
+        from sim.simfs import mounted
+        from sim.simhttp import FAULT_KINDS, SimServer, serving, to_legacy
+        from neuroglancer_scripts.accessor import (DataAccessError,
+                                                   get_accessor_for_url)
+        sc, opd = trace["scenario"], trace["op"]
+        res = Result()
+        log = EventLog()
+        sc2 = dict(sc, kind="sharded" if sc["kind"] == "sharded_http"
+                   else "file")
+        info = self._info(sc2)
+        fs, model, files = self._base(sc2, info)
+        fs.log = log
+        sharded = sc["kind"] == "sharded_http"
+        if sharded and sc.get("legacy"):
+            to_legacy(fs, DS, {"s0": sc["bits"][0], "s1": sc["bits"][0]})
+        if sharded:
+            mode = "plain"
+        elif not sc["flat"]:
+            mode = "nginx"
+        else:
+            mode = "gzstatic" if sc["gzip"] else "plain"
+        server = SimServer(fs, DS, "/ds/", mode, sc.get("zero_range", "416"),
+                           log)
+        s0, s1 = info["scales"]
+        grid0 = dsutil.chunk_grid(s0["size"], s0["chunk_sizes"][0])
+        grid1 = dsutil.chunk_grid(s1["size"], s1["chunk_sizes"][0])
+        name = opd["name"]
+        url = sc.get("url", "http://sim.test/ds/")
+        with mounted(fs):
+            local = get_accessor_for_url(DS)
+            if name == "http_fetch_chunk":
+                key, co = "s0", grid0[opd["ci"] % len(grid0)]
+                expect = ("bytes", local.fetch_chunk(key, co))
+                run = lambda: get_accessor_for_url(url).fetch_chunk(key, co)
+            elif name == "http_fetch_absent":
+                key, co = "s1", grid1[opd["ci"] % len(grid1)]
+                expect = ("raise", None)
+                run = lambda: get_accessor_for_url(url).fetch_chunk(key, co)
+            elif name == "http_fetch_info":
+                expect = ("bytes", local.fetch_file("info"))
+                run = lambda: get_accessor_for_url(url).fetch_file("info")
+            elif name == "http_exists":
+                expect = ("bool", True)
+                run = lambda: get_accessor_for_url(url).file_exists("info")
+            else:
+                expect = ("bool", False)
+                run = lambda: get_accessor_for_url(url).file_exists(
+                    "nothing.bin")
+        sigs = set()
+        evals = 0
+        with mounted(fs), serving(server):
+            server.begin_window(record=True)
+            st, v = sut(run)
+            reqs = list(server.requests)
+            server.end_window()
+            if expect[0] == "raise":
+                if st == "ok" and not (sharded and len(v) == 0):
+                    res.violate("C18/absent-returns-data",
+                                f"{sc['kind']}/{name}: never-stored chunk "
+                                f"fetched as {len(v)} B")
+            elif st == "exc":
+                res.violate("C18/fault-free-op-fails",
+                            f"{sc['kind']}/{name} raised {v!r} without any "
+                            "fault",
+                            key=f"C18/fault-free/{sc['kind']}/{name}/"
+                            f"{excname(v)}")
+            elif v != expect[1]:
+                res.violate("C18/fault-free-op-wrong",
+                            f"{sc['kind']}/{name} returned a wrong value "
+                            "without any fault")
+            faults = trace["faults"]
+            plans = []
+            if faults == "enum":
+                for (k, method, path, rng) in reqs:
+                    for fk in FAULT_KINDS:
+                        plans.append([[k, [fk]]])
+            elif isinstance(faults, dict):
+                import random
+                r = random.Random(faults["seed"])
+                for _ in range(16):
+                    plan = {}
+                    for _j in range(faults["random"]):
+                        k = r.choice(reqs)[0] if reqs else 0
+                        plan[k] = [r.choice(FAULT_KINDS)]
+                    plans.append([[k, plan[k]] for k in sorted(plan)])
+            else:
+                plans = [faults]
+            for plan in plans:
+                if res.violations:
+                    break
+                before = dict(server.fired)
+                server.begin_window({k: tuple(a) for k, a in plan})
+                log.add("PLAN", repr(plan))
+                st, v = sut(run)
+                server.end_window()
+                evals += 1
+                fired = [k for k, n in server.fired.items()
+                         if n != before.get(k, 0)]
+                if not fired:
+                    continue
+                for fk in fired:
+                    res.fault(fk)
+                roles = []
+                for k, a in plan:
+                    rq = next((q for q in reqs if q[0] == k), None)
+                    role = "?"
+                    if rq:
+                        role = ("info" if rq[2].endswith("/info") else
+                                "head" if rq[1] == "HEAD" else
+                                "range" if rq[3] else "get")
+                    roles.append(role)
+                    sigs.add(f"{sc['kind']}|{name}|{role}|{a[0]}|"
+                             f"{'ok' if st == 'ok' else excname(v)}")
+                where = (f"{sc['kind']}/{name} plan={plan} on "
+                         f"{[(q[1], q[2], q[3]) for q in reqs if q[0] in dict(plan)]}")
+                narrow = {"faults": plan}
+                is404 = any(a[0] == "status:404" for _k, a in plan)
+                if st == "exc":
+                    if not isinstance(v, (DataAccessError, OSError)) and not (
+                            is404 or expect[0] == "raise"):
+                        res.violate(
+                            "C18/unrelated-exception",
+                            f"{where}: raised {excname(v)}: {v!s:.100} "
+                            "instead of a data-access / I/O error",
+                            key=f"C18/exc/{sc['kind']}/{name}/{excname(v)}",
+                            narrow=narrow)
+                else:
+                    good = (expect[0] != "raise" and v == expect[1]) or (
+                        expect[0] == "raise" and sharded and len(v) == 0)
+                    if expect[0] == "bool" and is404 and v is False:
+                        good = True          # 404 means absent
+                    if not good:
+                        res.violate(
+                            "C18/normal-return-wrong",
+                            f"{where}: returned normally with "
+                            f"{'%d B' % len(v) if isinstance(v, bytes) else v!r}"
+                            " that is not the stored value",
+                            key=f"C18/wrong-return/{sc['kind']}/{name}/"
+                            + "+".join(sorted(fired)), narrow=narrow)
+                    else:
+                        res.probe("normal_return_effect_in_place")
+        res.evals = evals + 1
+        res.digest = log.digest()
+        res.steps = fs.total_calls + server.total
+        res.sigs = sorted(sigs)
+        res.nontrivial = bool(sigs)
+        res.info = {"fault_executions": evals, "requests": len(reqs)}
+        return res
+
+    # ------------------------------------------------------------------
     def _same(self, got, want):
         import numpy as np
         if isinstance(want, list):
@@ -529,7 +759,8 @@ class C18(Check):
         import numpy as np
         mode = "crash" if crashed else st
         if got[0] == "ok":
-            is_new = got[1].shape == new.shape and np.array_equal(got[1], new)
+            is_new = (new is not None and got[1].shape == new.shape
+                      and np.array_equal(got[1], new))
             is_old = (old is not None and got[1].shape == old.shape
                       and np.array_equal(got[1], old))
             if not (is_new or is_old):
